@@ -50,7 +50,7 @@ theorem scan_char (mt : Str → Str → Bool) (base rootName : Str) (mp : List S
     exact ⟨(n1 a).2 ha, (n1 b).2 hb⟩
 
 /-- externals included, ANY level limit: the nodes are the flattened parsed modules and the flattened external
-    importees of the RETAINED imports (whose name does not contain the root path string), each with its dotted parents -/
+    importees of the RETAINED imports, each with its dotted parents -/
 theorem nodes_included_lemma (mt : Str → Str → Bool) (base rootName : Str) (mp : List Str) (entries : List Entry)
     (o : ScanOptions) (g : PGraph Str) (hx : o.excludeExternal = false)
     (h : generateGraph mt base rootName mp entries o = .ok g) (I : List ImportRec)
@@ -60,26 +60,26 @@ theorem nodes_included_lemma (mt : Str → Str → Bool) (base rootName : Str) (
     s ∈ g.nodes ↔
       (∃ m ∈ (scanParsed mt base rootName mp entries o).allModules, s ∈ withParents (flattenNode (shiftedLimit o mp) m)) ∨
       (∃ j ∈ I, isInternal j.importee (internalPrefix rootName mp) = false ∧
-        retained mt o (internalPrefix rootName mp) j = true ∧ isInfix base j.importee = false ∧
+        retained mt o (internalPrefix rootName mp) j = true ∧
         s ∈ withParents (flattenNode (shiftedLimit o mp) j.importee)) := by
   obtain ⟨hpar, n1, -⟩ := scan_char mt base rootName mp entries o g h I hI
   rw [n1]
   constructor
   · rintro ⟨m, hm, hs⟩
     rw [mem_moduleList] at hm
-    rcases hm with hm | ⟨-, ⟨j, hj, hjext, hinf, hmj⟩, -⟩
+    rcases hm with hm | ⟨-, ⟨j, hj, hjext, hmj⟩, -⟩
     · exact .inl ⟨m, hm, hs⟩
     · obtain ⟨hjI, hjret⟩ := (mem_retainImports mt o _ I j).1 hj
       rw [hpar j hj] at hmj
-      exact .inr ⟨j, hjI, hjext, hjret, hinf,
+      exact .inr ⟨j, hjI, hjext, hjret,
         chain_trans hs (flatten_chain_mono _ (mem_cons_parents_chain hmj))⟩
-  · rintro (⟨m, hm, hs⟩ | ⟨j, hjI, hjext, hjret, hinf, hs⟩)
+  · rintro (⟨m, hm, hs⟩ | ⟨j, hjI, hjext, hjret, hs⟩)
     · exact ⟨m, (mem_moduleList ..).2 (.inl hm), hs⟩
     · have hjR : j ∈ retainImports mt o (internalPrefix rootName mp) I := (mem_retainImports mt o _ I j).2 ⟨hjI, hjret⟩
       refine ⟨j.importee, ?_, hs⟩
       rw [mem_moduleList]
       right
-      refine ⟨hx, ⟨j, hjR, hjext, hinf, List.mem_cons_self⟩, ?_⟩
+      refine ⟨hx, ⟨j, hjR, hjext, List.mem_cons_self⟩, ?_⟩
       rcases retained_true_cases mt o _ j hx hjext hjret with h | h
       · exact .inl h
       · exact .inr h.1
@@ -117,7 +117,7 @@ theorem not_retained_lemma (mt : Str → Str → Bool) (base rootName : Str) (mp
   have hnot : flattenNode (shiftedLimit o mp) y ∉ g.nodes := by
     intro hc
     obtain ⟨hpar, -, -⟩ := scan_char mt base rootName mp entries o g h I hI
-    rcases (nodes_included_lemma mt base rootName mp entries o g hx h I hI _).1 hc with ⟨m, hm, hs⟩ | ⟨j, hjI, hjext, hjret, -, hs⟩
+    rcases (nodes_included_lemma mt base rootName mp entries o g hx h I hI _).1 hc with ⟨m, hm, hs⟩ | ⟨j, hjI, hjext, hjret, hs⟩
     · exact hnp m hm hs
     · obtain ⟨p, hp, hpe⟩ := hhit
       have hjR : j ∈ retainImports mt o (internalPrefix rootName mp) I := (mem_retainImports mt o _ I j).2 ⟨hjI, hjret⟩
